@@ -1,6 +1,8 @@
 import Driver.Proto
 import Driver.C12
 import Driver.C12Mon
+import Driver.C14
+import Driver.C14Mon
 import Driver.C16
 import Driver.C16Lin
 import Driver.C16Mon
@@ -8,6 +10,8 @@ import Driver.C16Mon
 def suites : List (String × Driver.Suite) :=
   Driver.C12.suites ++
   Driver.C12Mon.suites ++
+  Driver.C14.suites ++
+  Driver.C14Mon.suites ++
   Driver.C16.suites ++
   Driver.C16Lin.suites ++
   Driver.C16Mon.suites
